@@ -346,6 +346,22 @@ func checkC13(c C13Case) (*Violation, []string, *caseInfo) {
 			if len(acc) > 0 && res.Code == 0 && (len(c.Disk) > 0 || firedAny) {
 				stats.probe("damaged-artefact-accepted")
 			}
+			if res.Code == 2 {
+				stats.probe("consumer-rejected-with-status-2")
+			}
+			if want.Defined && want.Status == 2 && res.Code == 2 {
+				stats.probe("library-error-reported-as-status-2")
+			}
+			for _, sk := range c.Skew {
+				if strings.HasSuffix(sk, "-target") && res.Code == 0 {
+					stats.probe("patch-accepted-on-a-stale-or-foreign-target")
+				}
+			}
+			for _, df := range c.Disk {
+				if df.Kind == "overwrite" && len(acc) > 0 {
+					stats.probe("operator-written-artefact-read")
+				}
+			}
 			if len(artefact) > 0 {
 				info.Nontrivial = firedAny || len(c.Disk) > 0 || len(c.Skew) > 0
 			}
